@@ -1,6 +1,7 @@
 (* Executable model of boltons.funcutils.update_wrapper / wraps and of the
    parts of FunctionBuilder they use, AS WRITTEN (after the fix: commits
-   972310d add_arg, a93312c __doc__, b766f76 call name, 5af02af annotations):
+   972310d add_arg, a93312c __doc__, b766f76 call name, 5af02af annotations,
+   6831507 copied __signature__):
    same fields (args list, positional defaults tuple re-attached from the end,
    kwonlydefaults dict by name, annotations dict by name), same control flow.
 
@@ -28,8 +29,16 @@ Record pyfunc := mkF {
   f_defaults : option (list value);      (* __defaults__: None or a tuple *)
   f_kwdefaults : option (pydict value);  (* __kwdefaults__: None or a dict *)
   f_annotations : pydict ann;            (* __annotations__, 'return' under RET *)
-  f_async : bool
+  f_async : bool;
+  f_id : nat;                            (* the identity of the function object *)
+  f_dict : pydict nat                    (* __dict__: attribute name token -> object token *)
 }.
+
+(* attribute names in __dict__ that wraps itself writes or that inspect reads *)
+Definition K_WRAPPED : nat := 0.       (* '__wrapped__': its value is the identity of a function *)
+Definition K_SOURCE : nat := 1.        (* '__source__' *)
+Definition K_SIGNATURE : nat := 2.     (* '__signature__' *)
+Definition SRC : nat := 1.             (* stands for "some source text" (its value is not observed) *)
 
 Definition odflt {A} (o : option (list A)) : list A := match o with Some l => l | None => [] end.
 Definition olist {A} (o : option A) : list A := match o with Some a => [a] | None => [] end.
@@ -78,7 +87,8 @@ Record fbuilder := mkFB {
   fb_defaults : option (list value);
   fb_kwonly : list name; fb_kwdefaults : pydict value;
   fb_annotations : pydict ann;
-  fb_async : bool
+  fb_async : bool;
+  fb_dict : pydict nat                   (* the 'dict' argument: func.__dict__ *)
 }.
 
 (* dict(pairs) / d.update(pairs) *)
@@ -121,7 +131,7 @@ Definition from_func (f : pyfunc) : res fbuilder :=
                (argspec_defaults s)
                (argspec_kwonly s) (argspec_kwdefaults s)
                (argspec_annotations s)
-               (f_async f))
+               (f_async f) (f_dict f))
   end.
 
 (* get_defaults_dict:
@@ -150,13 +160,13 @@ Definition remove_arg (b : fbuilder) (n : name) : res fbuilder :=
       let defaults' := flat_map (fun a => olist (d_get d_dict' a)) args' in
       Ok (mkFB (fb_name b) (fb_doc b) (fb_module b) args' (fb_varargs b) (fb_varkw b)
                (Some defaults') (fb_kwonly b) (fb_kwdefaults b)
-               (d_del (fb_annotations b) n) (fb_async b))
+               (d_del (fb_annotations b) n) (fb_async b) (fb_dict b))
   | None =>
       match list_remove n (fb_kwonly b) with
       | Some kwonly' =>
           Ok (mkFB (fb_name b) (fb_doc b) (fb_module b) (fb_args b) (fb_varargs b) (fb_varkw b)
                    (fb_defaults b) kwonly' (d_del (fb_kwdefaults b) n)
-                   (d_del (fb_annotations b) n) (fb_async b))
+                   (d_del (fb_annotations b) n) (fb_async b) (fb_dict b))
       | None => Raise ValueError
       end
   end.
@@ -173,11 +183,11 @@ Definition add_arg (b : fbuilder) (n : name) (d : option value) : res fbuilder :
         if has_defaults then Raise ValueError
         else Ok (mkFB (fb_name b) (fb_doc b) (fb_module b) (fb_args b ++ [n]) (fb_varargs b)
                       (fb_varkw b) (fb_defaults b) (fb_kwonly b) (fb_kwdefaults b)
-                      (fb_annotations b) (fb_async b))
+                      (fb_annotations b) (fb_async b) (fb_dict b))
     | Some v =>
         Ok (mkFB (fb_name b) (fb_doc b) (fb_module b) (fb_args b ++ [n]) (fb_varargs b)
                  (fb_varkw b) (Some (odflt (fb_defaults b) ++ [v])) (fb_kwonly b)
-                 (fb_kwdefaults b) (fb_annotations b) (fb_async b))
+                 (fb_kwdefaults b) (fb_annotations b) (fb_async b) (fb_dict b))
     end.
 
 (* ---- what the generated source denotes ------------------------------------------- *)
@@ -193,19 +203,22 @@ Definition all_names (b : fbuilder) : list name :=
 
 (* get_func: compile "def name(sig without defaults/annotations): body" (a
    duplicate parameter name is a SyntaxError), then re-attach __defaults__
-   positionally, __kwdefaults__ and __annotations__ by name, and the metadata *)
-Definition get_func (b : fbuilder) : res pyfunc :=
+   positionally, __kwdefaults__ and __annotations__ by name, the metadata,
+   func.__dict__.update(self.dict) if with_dict, and func.__source__ = src.
+   [gid] is the identity of the new function object. *)
+Definition get_func (b : fbuilder) (gid : nat) (with_dict : bool) : res pyfunc :=
   if nodup_b (all_names b)
   then Ok (mkF (fb_name b) (Some (fb_doc b)) (fb_module b)
                (fb_args b) (fb_varargs b) (fb_kwonly b) (fb_varkw b)
-               (fb_defaults b) (Some (fb_kwdefaults b)) (fb_annotations b) (fb_async b))
+               (fb_defaults b) (Some (fb_kwdefaults b)) (fb_annotations b) (fb_async b)
+               gid
+               (d_set (if with_dict then d_update [] (fb_dict b) else []) K_SOURCE SRC))
   else Raise SyntaxErr.
 
 (* ---- update_wrapper ------------------------------------------------------------------ *)
 Record built := mkB {
   b_func : pyfunc;            (* the function object returned *)
-  b_inv : invocation;         (* its body: return [await] _call(<invocation>) *)
-  b_wrapped_is_func : bool    (* __wrapped__ is func *)
+  b_inv : invocation          (* its body: return [await] _call(<invocation>) *)
 }.
 
 Fixpoint remove_args (b : fbuilder) (injected : list name) : res fbuilder :=
@@ -229,11 +242,23 @@ Fixpoint add_args (b : fbuilder) (expected : list (name * option value)) : res f
   | (n, d) :: r => match add_arg b n d with Ok b' => add_args b' r | Raise e => Raise e end
   end.
 
-Definition set_doc (g : pyfunc) (doc : option nat) : pyfunc :=
+Definition set_doc_dict (g : pyfunc) (doc : option nat) (d : pydict nat) : pyfunc :=
   mkF (f_name g) doc (f_module g) (f_args g) (f_varargs g) (f_kwonly g) (f_varkw g)
-      (f_defaults g) (f_kwdefaults g) (f_annotations g) (f_async g).
+      (f_defaults g) (f_kwdefaults g) (f_annotations g) (f_async g) (f_id g) d.
 
-Definition update_wrapper (f : pyfunc) (injected : list name)
+(* keyword options of update_wrapper (inject_to_varkw is left at its default) *)
+Record options := mkOpt { o_update_dict : bool; o_hide_wrapped : bool }.
+Definition default_options : options := mkOpt true false.
+
+(* the __dict__ of the result: what get_func left (the copy of func.__dict__ and
+   __source__), minus a copied __signature__, then
+     if hide_wrapped and hasattr(fully_wrapped, '__wrapped__'): del ...['__wrapped__']
+     elif not hide_wrapped: fully_wrapped.__wrapped__ = func *)
+Definition final_dict (o : options) (fid : nat) (d : pydict nat) : pydict nat :=
+  let d1 := d_del d K_SIGNATURE in
+  if o_hide_wrapped o then d_del d1 K_WRAPPED else d_set d1 K_WRAPPED fid.
+
+Definition update_wrapper_opt (o : options) (gid : nat) (f : pyfunc) (injected : list name)
            (expected : list (name * option value)) : res built :=
   match from_func f with
   | Raise e => Raise e
@@ -244,16 +269,21 @@ Definition update_wrapper (f : pyfunc) (injected : list name)
           match add_args b1 expected with
           | Raise e => Raise e
           | Ok b2 =>
-              match get_func b2 with
+              match get_func b2 gid (o_update_dict o) with
               | Raise e => Raise e
               | Ok g =>
                   (* if func.__doc__ is None: fully_wrapped.__doc__ = None *)
-                  let g' := match f_doc f with None => set_doc g None | Some _ => g end in
-                  Ok (mkB g' (get_invocation b2) true)
+                  let doc := match f_doc f with None => None | Some _ => f_doc g end in
+                  Ok (mkB (set_doc_dict g doc (final_dict o (f_id f) (f_dict g))) (get_invocation b2))
               end
           end
       end
   end.
+
+(* default options; the new function object gets identity 0 (irrelevant where not stacked) *)
+Definition update_wrapper (f : pyfunc) (injected : list name)
+           (expected : list (name * option value)) : res built :=
+  update_wrapper_opt default_options 0 f injected expected.
 
 (* ---- running the built function -------------------------------------------------------- *)
 Definition env_get (env : binding) (n : name) : option bval :=
@@ -332,5 +362,55 @@ Definition call_built (f : pyfunc) (g : built) (forward : bool) (c : call)
       match eval_inv (b_inv g) env with
       | Raise e => (None, Raise e)
       | Ok c' => (Some c', if forward then call_func f c' else Ok [])
+      end
+  end.
+
+(* ---- stacked decorators ------------------------------------------------------------------------- *)
+(* one wraps step applied on top of the previous result *)
+Record step := mkStep {
+  s_injected : list name; s_expected : list (name * option value);
+  s_options : options; s_id : nat     (* identity token of the function this step creates *)
+}.
+
+(* apply the steps bottom-up; returns the built functions, innermost first, and
+   the error that stopped the stack, if any *)
+Fixpoint run_steps (f : pyfunc) (steps : list step) : list built * option exn :=
+  match steps with
+  | [] => ([], None)
+  | s :: r =>
+      match update_wrapper_opt (s_options s) (s_id s) f (s_injected s) (s_expected s) with
+      | Raise e => ([], Some e)
+      | Ok g => let '(gs, e) := run_steps (b_func g) r in (g :: gs, e)
+      end
+  end.
+
+(* a call entering level [gs] (outermost first) with forwarding wrappers everywhere *)
+Fixpoint call_chain (f : pyfunc) (gs : list built) (c : call) : res binding :=
+  match gs with
+  | [] => call_func f c
+  | g :: below =>
+      match call_func (b_func g) c with
+      | Raise e => Raise e
+      | Ok env => match eval_inv (b_inv g) env with
+                  | Raise e => Raise e
+                  | Ok c' => call_chain f below c'
+                  end
+      end
+  end.
+
+(* the outermost function of a stack called on a call shape: what the outermost
+   wrapper received and the outcome (see call_built) *)
+Definition call_top (f : pyfunc) (gs_outer_first : list built) (forward : bool) (c : call)
+  : option call * res binding :=
+  match gs_outer_first with
+  | [] => (None, call_func f c)
+  | g :: below =>
+      match call_func (b_func g) c with
+      | Raise e => (None, Raise e)
+      | Ok env =>
+          match eval_inv (b_inv g) env with
+          | Raise e => (None, Raise e)
+          | Ok c' => (Some c', if forward then call_chain f below c' else Ok [])
+          end
       end
   end.
